@@ -35,6 +35,16 @@ impl SizeEntry {
             });
         }
 
+        // The esize is written as `esize_bytes` big-endian bytes: a larger
+        // value would be silently truncated by the serializer
+        let esize_bytes = header.esize_bytes();
+        if esize_bytes < 8 && self.esize >> (8 * u32::from(esize_bytes)) != 0 {
+            return Err(crate::size::error::SizeError::ValueTooLarge {
+                value: self.esize,
+                bytes: esize_bytes,
+            });
+        }
+
         Ok(())
     }
 
